@@ -320,7 +320,9 @@ impl C11 {
                 }
                 2 => ops.push(Op::SetDr(*r.pick(&rr::uplink_drs(cfg.region)))),
                 _ => {
-                    let t = gen_join_txn(&mut r, &cfg);
+                    let mut t = gen_join_txn(&mut r, &cfg);
+                    // now and then the application has provisioned the other set of credentials since the last attempt
+                    t.alt_identity = r.chance(1, 6);
                     ops.push(Op::Join(t));
                 }
             }
